@@ -166,7 +166,7 @@ class LineCheck:
             # thorough tier: further rounds with fresh seeds until the time budget is used (or something fails)
             self.rounds = 1
             if ctx.tier == "thorough":
-                budget = int(os.environ.get("VERIF_THOROUGH_SECONDS", "600"))
+                budget = int(os.environ.get("VERIF_THOROUGH_SECONDS", "300"))
                 seed0 = ctx.seed
                 while time.time() - ctx.t0 < budget and not ctx.verdict.violations and self.rounds < 50:
                     ctx.seed = seed0 + 1000 * self.rounds
